@@ -12,6 +12,10 @@
 //	D  decoders never panic: all short strings over a hostile alphabet, alone and
 //	   spliced into every window of valid encodings; whatever an address / bech32
 //	   decoder accepts must re-encode to the (lower-cased) input.
+//	E  correctly checksummed bech32 strings over a structured payload family (all 5-bit
+//	   strings of length <= 2, witness version x program length x tail shape) under
+//	   network and foreign prefixes, in four case forms, on every network: no panic, and
+//	   accepted exactly when an independent predicate says the string is an address.
 package main
 
 import (
@@ -951,6 +955,174 @@ func sectionHostile(a *acc, thorough bool) {
 	wg.Wait()
 }
 
+// ---------------------------------------------------------------- E: checksummed bech32 strings that are (mostly) not addresses
+//
+// Sections A and D only ever hand the address decoder (a) encodings of 20/32-byte programs
+// and (b) strings whose checksum is wrong, so everything behind the checksum test of
+// DecodeAddress (witness version, regrouping, program length) saw exactly one shape of
+// payload. Here every payload of a structured family gets a CORRECT checksum from the
+// independent encoder and is decoded on every network; the oracle is an independent
+// statement of which (hrp, payload) pairs are addresses.
+
+// ref5to8Strict regroups 5-bit groups into bytes; the unused tail must be < 5 bits of zeroes.
+func ref5to8Strict(groups []byte) ([]byte, bool) {
+	var bits []byte
+	for _, g := range groups {
+		for i := 4; i >= 0; i-- {
+			bits = append(bits, g>>uint(i)&1)
+		}
+	}
+	n := len(bits) / 8
+	out := make([]byte, n)
+	for i := 0; i < n*8; i++ {
+		out[i/8] |= bits[i] << uint(7-i%8)
+	}
+	tail := bits[n*8:]
+	if len(tail) >= 5 {
+		return nil, false
+	}
+	for _, b := range tail {
+		if b != 0 {
+			return nil, false
+		}
+	}
+	return out, true
+}
+
+// refIsAddress: is the bech32 string with this hrp and payload an address of the network?
+func refIsAddress(hrp string, payload []byte, netHrp string) ([]byte, bool) {
+	if hrp != netHrp || len(hrp)+1+len(payload)+6 > 90 || len(payload) < 1 || payload[0] != 0 {
+		return nil, false
+	}
+	prog, ok := ref5to8Strict(payload[1:])
+	if !ok || (len(prog) != 20 && len(prog) != 32) {
+		return nil, false
+	}
+	return prog, true
+}
+
+// payloadFamily: all 5-bit strings up to shortLen, and witness version x program length x
+// program pattern x shape of the tail (canonical padding, non-zero padding bits, one more
+// group, one group less). Lengths run past the 90-character limit of bech32.
+func payloadFamily(shortLen int, thorough bool) [][]byte {
+	out := allShort(shortLen, 32)
+	pats := []func(i int) byte{func(i int) byte { return byte(i*7 + 3) }}
+	if thorough {
+		pats = append(pats, func(i int) byte { return 0 }, func(i int) byte { return 0xff })
+	}
+	for v := 0; v < 32; v++ {
+		for n := 0; n <= 52; n++ {
+			for _, pf := range pats {
+				prog := make([]byte, n)
+				for i := range prog {
+					prog[i] = pf(i)
+				}
+				g := ref8to5(prog)
+				base := append([]byte{byte(v)}, g...)
+				out = append(out, base)
+				if len(g) > 0 {
+					if pad := uint(len(g)*5 - n*8); pad > 0 {
+						ones := append([]byte(nil), base...)
+						ones[len(ones)-1] |= 1<<pad - 1
+						low := append([]byte(nil), base...)
+						low[len(low)-1] |= 1
+						out = append(out, ones, low)
+					}
+					out = append(out, append([]byte(nil), base[:len(base)-1]...))
+				}
+				out = append(out, append(append([]byte(nil), base...), 0), append(append([]byte(nil), base...), 31))
+			}
+		}
+	}
+	return out
+}
+
+func checkChecksummed(a *acc, hrp string, payload []byte) {
+	lower := refBech32(hrp, payload)
+	sepAt := len(hrp)
+	forms := []struct{ name, s string }{
+		{"lower", lower},
+		{"upper", strings.ToUpper(lower)},
+		{"hrp-upper-data-lower", strings.ToUpper(lower[:sepAt]) + lower[sepAt:]},
+		{"hrp-lower-data-upper", lower[:sepAt] + strings.ToUpper(lower[sepAt:])},
+	}
+	for fi, f := range forms {
+		mixed := f.s != lower && f.s != strings.ToUpper(lower)
+		if fi >= 2 && !mixed {
+			continue // nothing to change the case of
+		}
+		if fi == 1 && f.s == lower {
+			continue
+		}
+		c := map[string]string{"hrp": hrp, "payload_5bit_hex": ev.Hex(payload), "form": f.name, "input": f.s}
+		id := f.s
+		// the bech32 layer: a correctly checksummed string of legal length decodes to (hrp, payload)
+		guard(a, "bech32-decoder-panic-on-checksummed-string", id, func() {
+			a.add("evaluations", 1)
+			h2, d2, err := bech32.Bech32Decode(f.s)
+			wantOK := len(f.s) <= 90 && !mixed
+			if wantOK && (err != nil || h2 != hrp || !bytes.Equal(d2, payload)) {
+				a.violation("bech32-round-trip-broken", id, fmt.Sprintf("Bech32Decode(%q) = (%q,%x,%v), want (%q,%x)", f.s, h2, d2, err, hrp, payload), c)
+			}
+			if !wantOK && err == nil {
+				a.violation("bech32-decoder-accepts-string-that-is-not-an-encoding", id, fmt.Sprintf("Bech32Decode(%q) (length %d, mixed case %v) accepted", f.s, len(f.s), mixed), c)
+			}
+		})
+		for _, nd := range nets {
+			guard(a, "address-decoder-panic-on-checksummed-bech32-string", id, func() {
+				a.add("evaluations", 1)
+				a.add("checksummed_inputs", 1)
+				d, err := common.DecodeAddress(f.s, nd.p)
+				prog, isAddr := refIsAddress(hrp, payload, nd.p.Bech32HRPSegwit)
+				if mixed {
+					isAddr = false
+				}
+				switch {
+				case err == nil && !isAddr:
+					a.violation("checksummed-bech32-string-that-is-not-an-address-accepted", id, fmt.Sprintf("DecodeAddress(%q,%s) (hrp %q, payload groups %x, %s) is accepted as %v", f.s, nd.name, hrp, payload, f.name, d), c)
+				case err != nil && isAddr:
+					a.violation("checksummed-address-rejected", id, fmt.Sprintf("DecodeAddress(%q,%s): %v, but it is version 0 with the %d-byte program %x", f.s, nd.name, err, len(prog), prog), c)
+				case err == nil:
+					_, isPKH := d.(*common.AddressWitnessPubKeyHash)
+					_, isSH := d.(*common.AddressWitnessScriptHash)
+					if !bytes.Equal(d.ScriptAddress(), prog) || isPKH != (len(prog) == 20) || isSH != (len(prog) == 32) || d.EncodeAddress() != lower || !d.IsForNet(nd.p) {
+						a.violation("checksummed-address-decodes-to-another-program", id, fmt.Sprintf("DecodeAddress(%q,%s) = %T %x, want program %x", f.s, nd.name, d, d.ScriptAddress(), prog), c)
+					}
+					a.class("checksummed string: accepted (is an address of the network)", 1)
+				default:
+					a.class("checksummed string: "+errClass(err), 1)
+				}
+			})
+		}
+	}
+}
+
+func sectionChecksummed(a *acc, thorough bool) {
+	shortLen := 2
+	if thorough {
+		shortLen = 3
+	}
+	fam := payloadFamily(shortLen, thorough)
+	a.add("checksummed_payloads", len(fam))
+	// the three network prefixes, a foreign one, a one-character one (the address decoder
+	// wants more than one), a longer one sharing a network's first characters, one with a
+	// '1' inside and one without letters
+	hrps := []string{"bn", "tn", "sn", "bc", "b", "bnn", "b1n", "~!"}
+	var wg sync.WaitGroup
+	for _, hrp := range hrps {
+		wg.Add(1)
+		go func(hrp string) {
+			defer wg.Done()
+			la := newAcc()
+			defer a.merge(la)
+			for _, p := range fam {
+				checkChecksummed(la, hrp, p)
+			}
+		}(hrp)
+	}
+	wg.Wait()
+}
+
 // ---------------------------------------------------------------- main
 
 func main() {
@@ -994,6 +1166,7 @@ func main() {
 		func() { la := newAcc(); sectionCodecs(la); a.merge(la) },
 		func() { sectionMnemonics(a, run.Thorough()) },
 		func() { sectionHostile(a, run.Thorough()) },
+		func() { sectionChecksummed(a, run.Thorough()) },
 	} {
 		if only := os.Getenv("VERIF_C29_ONLY"); only != "" && only != fmt.Sprint(si) {
 			continue // debugging aid: run one section
@@ -1036,16 +1209,19 @@ func main() {
 	for _, k := range vk {
 		run.Violation(k, a.viols[k].what, a.viols[k].c)
 	}
-	run.Set("rule", "cases: (network, kind, hash) addresses with hash in {00.., ff.., 01 02 .., every single-bit-set value (thorough: also every single-bit-cleared value)} of 20 and 32 bytes on 3 networks; per address every position x every other bech32 character, the case change and 14 further characters (separator, out-of-charset, upper case, control, high bytes); a changed prefix or separator is tried on all 3 networks. Non-trivial = distinct substituted addresses that got past the length/charset/case stages and were rejected by the checksum itself (measured from the decoder's error). Codecs: all byte strings of length <= 2 and 6 patterns of every length 0..40; mnemonics: 5 entropy sizes x patterns x single-bit entropies x every word index in two positions x 7 languages; hostile: all strings over a 12-character alphabet up to the stated length, alone and spliced into every window of valid encodings.")
+	run.Set("rule", "cases: (network, kind, hash) addresses with hash in {00.., ff.., 01 02 .., every single-bit-set value (thorough: also every single-bit-cleared value)} of 20 and 32 bytes on 3 networks; per address every position x every other bech32 character, the case change and 14 further characters (separator, out-of-charset, upper case, control, high bytes); a changed prefix or separator is tried on all 3 networks. Non-trivial = distinct substituted addresses that got past the length/charset/case stages and were rejected by the checksum itself (measured from the decoder's error). Codecs: all byte strings of length <= 2 and 6 patterns of every length 0..40; mnemonics: 5 entropy sizes x patterns x single-bit entropies x every word index in two positions x 7 languages; hostile: all strings over a 12-character alphabet up to the stated length, alone and spliced into every window of valid encodings. Checksummed strings: hrp in {bn, tn, sn, bc, b, bnn, b1n, ~!} x payload in {all 5-bit strings of length <= 2 (thorough 3)} + {witness version 0..31 x program length 0..52 bytes (crossing the 90-character limit) x program pattern (thorough 3 patterns) x tail in {canonical zero padding, all padding bits set, lowest padding bit set, last group dropped, one more group 0, one more group 31}}, checksum from the independent encoder, x {lower, upper, upper-case hrp with lower-case data, lower-case hrp with upper-case data} x 3 networks; DecodeAddress must not panic and must accept exactly when hrp = network hrp, version = 0 and the groups regroup strictly to 20 or 32 bytes, returning that program.")
 	run.Sample(map[string]string{"network": "main", "kind": "p2wpkh", "hash": strings.Repeat("00", 20), "address": refSegwitAddress("bn", 0, make([]byte, 20))})
 	run.Sample(map[string]string{"network": "test", "kind": "p2wsh", "hash": strings.Repeat("ff", 32), "address": refSegwitAddress("tn", 0, bytes.Repeat([]byte{0xff}, 32))})
 	run.Sample(map[string]string{"substitution": "bn1q... position 5 'q'->'p'", "required": "rejected (checksum)"})
 	run.Sample(map[string]string{"substitution": "position 0 'b'->'t' (names the test network)", "required": "rejected on all three networks"})
 	run.Sample(map[string]string{"mnemonic": refMnemonic(bytes.Repeat([]byte{0xff}, 32), wordlists.English), "entropy": strings.Repeat("ff", 32)})
 	run.Sample(map[string]string{"hostile": "AA=\\n=\\xff== into base32 decoders", "required": "no panic"})
+	run.Sample(map[string]string{"checksummed": refBech32("bn", nil) + " (network prefix, empty payload, valid checksum)", "required": "DecodeAddress returns an error, no panic"})
+	run.Sample(map[string]string{"checksummed": refBech32("tn", append([]byte{1}, ref8to5(make([]byte, 20))...)) + " (witness version 1, 20-byte program)", "required": "rejected"})
 	run.Assume("the BIP-173 and BIP-39 reference encoders of this check are anchored on published vectors; the word lists themselves are data and trusted (checked for duplicates only)")
 	run.Assume("Go's encoding/base32 is the RFC 4648 reference for the base32 encoders")
 	run.Assume("bech32 human-readable parts are lower case (every caller lower-cases them); an upper-case HRP passed to Bech32Encode is outside the enumerated domain")
+	run.Assume("which checksummed bech32 strings are addresses is stated independently as: prefix of the network, at most 90 characters, one case, witness version 0, remaining groups regroup to exactly 20 or 32 bytes with fewer than 5 zero padding bits (BIP-173 rules restricted to the two supported program kinds)")
 	run.Assume("single-character corruption means substitution of one character; insertions and deletions are only exercised for 'no panic' and for 'accepted implies it is an encoding'")
 	run.Finish()
 }
